@@ -80,6 +80,22 @@ def finals(instrs):
 
 # ---------------------------------------------------------------- T-fn
 
+def minimal_crash(instrs, exc):
+    """shortest contiguous sub-list on which optimize() raises the same exception"""
+    n = len(instrs)
+    for k in range(1, n + 1):
+        for a in range(0, n - k + 1):
+            sub = instrs[a:a + k]
+            c = QvmCode()
+            try:
+                c.add(*dec_instrs(sub))
+                c.optimize()
+            except BaseException as e:  # noqa
+                if type(e).__name__ == exc:
+                    return sub
+    return instrs
+
+
 def opt_list(case):
     """{'instrs': [[op, args...]...]} -> {'in': parsed, 'out': parsed, 'final': [...]}
     | {'in': parsed, 'exc': ...}"""
@@ -89,7 +105,8 @@ def opt_list(case):
     try:
         code.optimize()
     except BaseException as e:  # noqa
-        return {'in': pin, 'exc': type(e).__name__, 'msg': str(e)[:120]}
+        return {'in': pin, 'exc': type(e).__name__, 'msg': str(e)[:120],
+                'minimal': minimal_crash(case['instrs'], type(e).__name__)}
     try:
         fin = finals(code._instrs)
     except BaseException as e:  # noqa
@@ -100,7 +117,7 @@ def opt_list(case):
 # ---------------------------------------------------------------- property oracle on windows
 
 BASE_SRC = ('DIM SHARED g%\nDIM SHARED h&\n'
-            'x% = 1\ny& = 2\nz! = 1.5\nw# = 2.5\ns$ = "lit"\ng% = 3\nh& = 4\n')
+            'x% = 1\ny& = 2\nz! = 1.5\nw# = 2.5\ns$ = "lit"\nt$ = "a"\ng% = 3\nh& = 4\n')
 _base = None
 
 
@@ -155,10 +172,10 @@ def run_body(body, defines_wl, max_ticks=400):
     return ['end', st[1], st[2], st[3], st[4], st[5], st[6], st[7], st[8], st[10], st[11], st[12]]
 
 
-def exec_window(case):
-    """{'pre': [...], 'window': [...]} -> {'changed': bool, 'before': outcome, 'after': outcome}"""
+def exec_one(pre, window):
+    """-> None (optimize leaves the window alone) | (before, after, final-after) | {'exc'...}"""
     w = QvmCode()
-    w.add(*dec_instrs(case['window']))
+    w.add(*dec_instrs(window))
     before = list(w._instrs)
     fb = [i.final for i in before]
     try:
@@ -169,16 +186,44 @@ def exec_window(case):
     try:
         fa = [i.final for i in after]
     except BaseException as e:  # noqa
-        return {'changed': True, 'final-exc': type(e).__name__}
+        return {'final-exc': type(e).__name__}
     if fa == fb:
-        return {'changed': False}
-    pre = QvmCode()
-    pre.add(*dec_instrs(case['pre']))
+        return None
+    p = QvmCode()
+    p.add(*dec_instrs(pre))
     defines_wl = any(i.op.name == '_LABEL' and i.args[0] == 'wl' for i in before)
-    rb = run_body(pre._instrs + before, defines_wl)
-    ra = run_body(pre._instrs + after, defines_wl)
-    return {'changed': True, 'before': rb, 'after': ra,
-            'after_final': [[str(x) for x in f] for f in fa]}
+    rb = run_body(p._instrs + before, defines_wl)
+    ra = run_body(p._instrs + after, defines_wl)
+    return rb, ra, [[str(x) for x in f] for f in fa]
+
+
+def exec_window(case):
+    """{'pre': [...], 'window': [...]} -> {'changed': bool, 'before': outcome, 'after': outcome,
+    'minimal': smallest contiguous sub-window whose outcomes differ from the same pre-state}"""
+    r = exec_one(case['pre'], case['window'])
+    if r is None:
+        return {'changed': False}
+    if isinstance(r, dict):
+        return r
+    rb, ra, fa = r
+    out = {'changed': True, 'before': rb, 'after': ra, 'after_final': fa}
+    if rb != ra:
+        w = case['window']
+        n = len(w)
+        best = w
+        done = False
+        for k in range(1, n):
+            for a in range(0, n - k + 1):
+                sub = w[a:a + k]
+                r2 = exec_one(case['pre'], sub)
+                if isinstance(r2, tuple) and r2[0] != r2[1]:
+                    best = sub
+                    done = True
+                    break
+            if done:
+                break
+        out['minimal'] = best
+    return out
 
 
 # ---------------------------------------------------------------- whole programs
